@@ -16,7 +16,7 @@ def register(prop):
 
 def run(prop, repo_root, tier):
     out = {"obligations": [], "samples": [], "trusted": [], "functions": [], "errors": [], "assumptions": [], "bounded": [], "not_covered": []}
-    for modname in ("pyvc.twin", "pyvc.frame", "pyvc.sites", "pyvc.sites_c11"):
+    for modname in ("pyvc.twin", "pyvc.frame", "pyvc.sites", "pyvc.sites_c11", "pyvc.sites_c05"):
         try:
             importlib.import_module(modname)
         except ModuleNotFoundError as e:
